@@ -267,6 +267,20 @@ int main(int argc, char** argv) {
       JsonDocument d(&SPY0); SPY0.requested = 0; SPY0.markPeak(); size_t base = SPY0.cur;
       DeserializationError e = deserializeJson(d, r, DeserializationOption::NestingLimit((uint8_t)lim));
       out = string(e.c_str()) + " " + std::to_string(r.pos) + " req=" + std::to_string(SPY0.requested) + " peak=" + std::to_string(SPY0.peak - base);
+    } else if (op == "copyeq") {
+      // C04: copies are deep, equal to their source and independent of it (set(), copy constructor, member assignment), for documents of any origin
+      string spec; is >> spec;
+      JsonDocument d(&SPY0); buildDoc(d, spec);
+      string before = showS(d.as<JsonVariantConst>());
+      JsonDocument d2(&SPY0); bool r2 = d2.set(d.as<JsonVariantConst>());
+      JsonDocument d3(d);
+      JsonDocument d4(&SPY0); d4["x"] = d.as<JsonVariantConst>();
+      string s2 = showS(d2.as<JsonVariantConst>()), s3 = showS(d3.as<JsonVariantConst>()), s4 = showS(d4["x"].as<JsonVariantConst>());
+      bool eq = d2.as<JsonVariantConst>() == d.as<JsonVariantConst>();
+      // mutate the copies: the source must not move
+      d2.to<JsonArray>().add("changed"); d3.clear(); d4["x"]["k"] = 1; d4["x"].add(2);
+      string after = showS(d.as<JsonVariantConst>());
+      out = before + " " + s2 + " " + s3 + " " + s4 + " set=" + (r2 ? "1" : "0") + " eq=" + (eq ? "1" : "0") + " src=" + (after == before ? "same" : "CHANGED");
     } else if (op == "conv") {
       // C13: every typed extraction of the root value
       int cfg; string spec; is >> cfg >> spec;
